@@ -248,7 +248,10 @@ func (h *H) Quiesce(gatesOpen bool) {
 	h.sampleQuiet()
 }
 
+// viol records a violated clause. Digit runs in the detail are collapsed so that signatures are stable
+// (the replay file carries the concrete numbers).
 func (h *H) viol(prop, clause, detail string) {
+	detail = collapseDigits(detail)
 	k := prop + "|" + clause + "|" + detail
 	if h.vseen[k] {
 		return
@@ -980,4 +983,22 @@ func tagOfData(s string) int {
 		n = -n
 	}
 	return n
+}
+
+func collapseDigits(s string) string {
+	b := make([]byte, 0, len(s))
+	in := false
+	for i := 0; i < len(s); i++ {
+		c := s[i]
+		if c >= '0' && c <= '9' {
+			if !in {
+				b = append(b, '#')
+			}
+			in = true
+			continue
+		}
+		in = false
+		b = append(b, c)
+	}
+	return string(b)
 }
